@@ -146,7 +146,7 @@ def rule_letters(fx, rep):
                 for (e, pol, w) in guard_conditions(wb, bb, expand_named=True):
                     d = deep_strip(e)
                     if isinstance(d, tuple) and d[0] == "discr" and isinstance(pol, int) and (find_kind_discr(d) or
-                                                                                              (wb is not wr and deep_strip(d[1])[:2] == ("arg", 1) and "PromotionPieceKind" in (wb.local_ty(1) or ""))):
+                                                                                              (wb is not wr and deep_strip(d[1])[:2] == ("arg", 1) and (wb.local_ty(1) or "").endswith("piece::PromotionPieceKind"))):
                         wt[kinds.get(pol)] = lit
     rep.sample({"rule": "C17-LETTERS", "reader_promotion": rt, "writer_promotion": wt})
     n += 1
